@@ -52,6 +52,18 @@ CHECKS = {
         technique="property-based testing (proptest) against a small reference model (equal iff same unit and amount; None / panic across units)",
         text="Random search over the types without reference unit x unit pairs x amount pairs (equal amounts over-represented); panics are observed with catch_unwind.",
         design="4/C10"),
+    "C11": dict(
+        engine="E2-progen",
+        technique="Hypothesis-driven generation of well-formed definitions, compiled twice under attribute permutations; the dump of the compiled types is compared with a Python model of the declaration (exact Fractions); metamorphic relation between the two permutations",
+        text="Random groups of definitions (basic/derived, with/without reference unit, single unit; non-ASCII symbols, all literal forms, ties, prefixes, docs, interleaved attributes) are compiled in alternating back-ends; main() dumps the full registry, lookups, constructors, scaling, like and derived operators of every type; every line is checked against the model, and the two permutations of a group must agree apart from tie order.",
+        note="trusted base: rustc/cargo, the Python model in progen/defgen.py and progen/c11.py; identifiers restricted to the catalogue's word shape",
+        design="4/C11"),
+    "C12": dict(
+        engine="E2-progen",
+        technique="Hypothesis-driven mutation of well-formed definitions by defect operators with malformedness preconditions; each program compiled alone; oracle: compile failure with a primary error span inside the offending definition",
+        text="Twelve defect operators (13 argument-list defects, 16 non-derivation expressions, operands/results without reference unit ...) applied to random well-formed definitions, plus the repository's 13 ui cases; every program is its own rustc invocation; error texts are not compared, only failure and span location.",
+        note="trusted base: rustc/cargo JSON diagnostics and their macro-expansion span chains",
+        design="4/C12"),
     "C13": dict(
         technique="property-based testing (proptest) against the exact rational rate formulas and inverse / reciprocal relations",
         text="Random search with shrinking over 10 representative (term, per) type pairs x rate components x operands in any unit; components bit-exact, products and quotients against exact rationals with the rounding budget, inverse relations within propagated budgets.",
